@@ -12,7 +12,8 @@ class Spec(runner.Spec):
         "independent decoder: protoc --decode (libprotoc 3.21.12 in the sandbox) on the unmodified generated files copied to .work/proto_c18/orig; when protoc rejects a file, the definitions it points at are removed from a second copy (.work/proto_c18/usable) so that the remaining messages of that module can still be decoded — the rejection itself is reported by the `proto schema` request of the offending definition",
         "if protoc is not installed the check says so (coverage.notes / histogram tag decoder:builtin) and uses the built-in proto3 wire decoder of tools/proto_streams.py alone; with protoc present both decoders run and must agree",
         "field names are matched to components by declaration order (schema) = component order (descriptor); for SET types the descriptor is in canonical tag order, which is the known finding proto.set_field_order",
-        "the schema model cannot see the declaration order of a SET or the signedness of a 64-bit Rust integer in the descriptor: `proto wire` is not asked for SET types, and u64/i64 is decided by the converter's rule (negative lower bound)",
+        "the schema model cannot see the declaration order of a SET or the signedness of a 64-bit Rust integer in the descriptor: `proto wire` is not asked for SET types, and u64/i64 is decided by the converter's rule (negative lower bound) — theorem schema_int_encoding_agree shows that this guess is `definition_type_to_protobuf_type` of the Rust type the converter model of C15 (Codegen/IntType.lean) selects, for every constraint with a non-empty root",
+        "INTEGER width/sign: the theorem covers every constraint with i64 bounds and a non-empty root; `INTEGER (5..-3, ...)` (a root that contains no value, accepted by the front end) is declared sint64 and written uint64 (example in Props/C18.lean); the zoo has no such type",
         "stream `proto-gen` (exploration level, protoc as oracle): the real generator writes the .proto files of generated module texts (module names with hyphens/digits/Module suffix, object identifiers, names that are proto3 keywords, two modules with imports, random structures from the generator of C09) and protoc must accept every file; rejections inside the listed finding classes are KNOWN-FINDINGs",
         "translation validation, not proof, for the text of the .proto files: the Lean theorem speaks about the schema *model* (Proto/Schema.lean), which is compared with the real files by the `proto wire` requests",
     ]
@@ -29,5 +30,5 @@ class Spec(runner.Spec):
     trusted_base = [
         "Lean 4.33 kernel; axioms per theorem under coverage.theorems",
         "protoc (independent decoder and proto3 validator); tools/proto_streams.py (proto3 subset reader, text-format reader, built-in wire decoder, expected tree from the value)",
-        "hand-written mirrors Proto/Codec.lean, Proto/Schema.lean; harness/src/proto.rs (ops enc, schema, wire, files), harness/build.rs (to_protobuf), Driver/ProtoStream.lean",
+        "hand-written mirrors Proto/Codec.lean, Proto/Schema.lean, Codegen/IntType.lean (asn1rs-model/src/rust.rs; tied to the code by ./check C15); harness/src/proto.rs (ops enc, schema, wire, files), harness/build.rs (to_protobuf), Driver/ProtoStream.lean",
     ]
